@@ -1,4 +1,4 @@
-"""C17 -- remaining class-level refactorings (narrow necessary conditions R17.1-R17.4)."""
+"""C17 -- remaining class-level refactorings (narrow necessary conditions R17.1-R17.6)."""
 from __future__ import annotations
 
 import ast
@@ -17,7 +17,8 @@ EXPLANATION = (
     "that introduce-factory hands to rename_in_module is created with only_calls=True.  R17.4 (=R03.4): use-function's "
     "generator refusal counts every generator-making constructor.  R17.5 (=R19.3): the structural matcher behind "
     "use-function/restructure enumerates every field (only expr_context filtered) and rejects on class, child count, "
-    "list length, scalar type and value.  The emitted getter/setter/factory text and the "
+    "list length, scalar type and value.  R17.6: the unindented global-factory template is returned only under a test of the class "
+    "line's textual column.  The emitted getter/setter/factory text and the "
     "body transplant are runtime strings and are not decided."
 )
 ASSUMPTIONS = ["R17.1 and R17.4 share their rule bodies with C04 and C03"]
@@ -83,3 +84,37 @@ def check(ctx, res) -> None:
 
     # ---- R17.5 (=R19.3): use-function and restructure rewrite what the structural matcher reports as instances
     matcher_rule(ctx, res, "R17.5")
+
+    # ---- R17.6 the global factory is emitted as unindented text right after the class: that is only a module-level
+    # function if the class statement itself starts in column 0.  rope's scope objects do not see if/try/with blocks, so
+    # the test has to be on the TEXTUAL column of the class line (an indentation helper, col_offset or a prefix test).
+    gf = idx.need_func("rope.refactor.introduce_factory.IntroduceFactory._get_factory_method")
+    gcfg = CFG(gf.node)
+    n6 = 0
+
+    def column_valued(t: ast.AST) -> bool:
+        for x in ast.walk(t):
+            if isinstance(x, ast.Call) and "indent" in call_name(x).lower():
+                return True
+            if isinstance(x, ast.Attribute) and x.attr == "col_offset":
+                return True
+            if isinstance(x, ast.Call) and call_name(x) in ("startswith", "lstrip", "isspace"):
+                return True
+        return False
+
+    for nd in gcfg.nodes:
+        if nd.kind != "stmt" or not isinstance(nd.ast, ast.Return) or nd.ast.value is None:
+            continue
+        consts = [x.value for x in ast.walk(nd.ast.value) if isinstance(x, ast.Constant) and isinstance(x.value, str)]
+        col0 = any(("\ndef " in c or c.startswith("def ")) for c in consts) and not any(
+            isinstance(x, ast.Call) and call_name(x) in ("indent_lines", "fix_indentation") for x in ast.walk(nd.ast.value))
+        if not col0:
+            continue
+        n6 += 1
+        ok = any(column_valued(t) for t, pol in gcfg.guards(nd.id))
+        res.add("R17.6", "_get_factory_method|global-at-column-0", ok, f"{gf.unit.rel}:{nd.lineno}",
+                "the unindented factory text is emitted only after a test on the textual column of the class line" if ok else
+                "the global factory (unindented `def` text inserted right after the class) is emitted without any test on the textual column of the "
+                "class statement: a class defined inside a module-level if/try/with block gets the factory pasted into the middle of that block, so "
+                "the statements after it become dead code or the module stops parsing", function=gf.qualname)
+    res.floor("R17.6", "column-0 factory templates", n6, 1)
